@@ -5,6 +5,7 @@ PID="$1"; SEED="$2"; lc=$(echo "$PID" | tr 'A-Z' 'a-z')
 WT=/root/work/evalwt-$lc
 [ -d "$WT" ] || git -C /repo worktree add -q "$WT" HEAD
 git -C "$WT" checkout -q -- . ; git -C "$WT" clean -fdq
+git -C "$WT" checkout -q --detach "$(git -C /repo rev-parse HEAD)"
 cd "$WT"
 run_demo() { ( cd "$SEED" && PYTHONPATH="$WT/src" timeout 600 /venv/bin/python demo.py "$WT" >/tmp/seed_demo_$lc.txt 2>&1; echo $? ); }
 echo "clean demo exit: $(run_demo)"
